@@ -323,82 +323,75 @@ Definition init (c : config) (gated : list bool) : st :=
 
 (* ---- the matcher's reduced exploration ----
    Exploring every interleaving of the workers' internal steps is exponential in the number of
-   workers.  The matcher therefore (1) runs, after every label, all internal steps that commute with
-   every later step of the other threads ([safe_tau]: AddInt32 of the lowest-numbered ready worker -
-   workers are interchangeable because events carry no worker identity -, the positional write, a
-   ctx.Err() check once the context is Done, a worker return that cannot record the first error,
-   Wait); (2) performs a ctx.Err() check that sees a live context either just in time for the
-   enter event of that index ([pre_enter]) or, by ordinary exploration, immediately before a step
-   that cancels the context ([m_labels]): a check that saw a live context commutes with everything
-   up to the first cancellation.  Every step taken is a genuine [step] of the model (lemma
-   [mstep_run] in ParDoProofs.v), so every history the matcher accepts is produced by a run of
-   [qstep]. *)
-Definition errret (p : wpc) : bool := match p with WRet (Some _) => true | _ => false end.
-
-Definition safe_of (s : st) (w : nat) (p : wpc) : option lab :=
+   workers.  The matcher therefore runs, after every label, all internal steps whose outcome is
+   already determined ([safe_tau]):
+   - AddInt32 of the lowest-numbered ready worker (workers are interchangeable: events carry no
+     worker identity), the positional write, a worker return that cannot record the first error, Wait:
+     they commute with every later step of the other threads;
+   - a ctx.Err() check once the context is Done (the outcome can no longer change);
+   - a ctx.Err() check on a live context exactly when the history contains an enter event for that
+     index ([will], computed from the whole recorded history): a worker whose index is entered must
+     have seen a live context, and such a check commutes with everything before the first
+     cancellation; a worker whose index is never entered must have seen a cancelled one, so its check
+     waits until the context is Done.
+   Left to the search: TCancelEff and a TFinish that may record the first error (and cancel).
+   Every step taken is a genuine [step] of the model (lemma [mstep_run] in ParDoProofs.v), so every
+   history the matcher accepts is produced by a run of [qstep]; the hint only prunes. *)
+Definition safe_of (will : list bool) (s : st) (w : nat) (p : wpc) : option lab :=
   match p with
   | WFetch => Some (TFetch w)
   | WWrite _ _ _ => Some (TWrite w)
-  | WCheck _ => if dctx s then Some (TCheck w) else None
+  | WCheck i => if dctx s || nth i will false then Some (TCheck w) else None
   | WRet None => Some (TFinish w)
   | WRet (Some _) => if is_none (errc s) then None else Some (TFinish w)   (* first error: order matters *)
   | _ => None
   end.
 
-Fixpoint first_safe (s : st) (w : nat) (l : list wpc) : option lab :=
+Fixpoint first_safe (will : list bool) (s : st) (w : nat) (l : list wpc) : option lab :=
   match l with
   | [] => None
-  | p :: t => match safe_of s w p with Some x => Some x | None => first_safe s (S w) t end
+  | p :: t => match safe_of will s w p with Some x => Some x | None => first_safe will s (S w) t end
   end.
 
-Definition safe_tau (s : st) : option lab :=
-  match first_safe s 0 (ws s) with
+Definition safe_tau (will : list bool) (s : st) : option lab :=
+  match first_safe will s 0 (ws s) with
   | Some x => Some x
   | None => match pc s with MWait => if forallb is_done (ws s) then Some TWait else None | _ => None end
   end.
 
-Fixpoint settle (fuel : nat) (s : st) : st :=
+Fixpoint settle (will : list bool) (fuel : nat) (s : st) : st :=
   match fuel with
   | O => s
-  | S f => match safe_tau s with
-           | Some l => match step s l with Some s' => settle f s' | None => s end
+  | S f => match safe_tau will s with
+           | Some l => match step s l with Some s' => settle will f s' | None => s end
            | None => s
            end
   end.
 
 Definition settle_fuel (s : st) : nat := 6 * length (ws s) + 8.
 
-(* the just-in-time ctx.Err() check of the worker that is about to enter f(i) with a live context *)
-Definition pre_enter (s : st) (l : lab) : st :=
-  match l with
-  | LEnter w i false =>
-      match nth_error (ws s) w with
-      | Some (WCheck j) =>
-          if (i =? j) && negb (dctx s)
-          then match step s (TCheck w) with Some s' => s' | None => s end
-          else s
-      | _ => s
-      end
-  | _ => s
-  end.
-
-Definition mstep (s : st) (l : lab) : option st :=
-  match qstep (pre_enter s l) l with Some s' => Some (settle (settle_fuel s') s') | None => None end.
+Definition mstep (will : list bool) (s : st) (l : lab) : option st :=
+  match qstep s l with Some s' => Some (settle will (settle_fuel s') s') | None => None end.
 
 (* internal labels the matcher explores by search *)
-Definition cancel_pending (s : st) : bool :=
-  cstate_eqb (cctx s) CReq || (is_none (errc s) && existsb errret (ws s)).
+Definition m_labels (s : st) : list lab := map TFinish (seq 0 (length (ws s))) ++ [TCancelEff].
 
-Definition m_labels (s : st) : list lab :=
-  map TFinish (seq 0 (length (ws s))) ++ [TCancelEff]
-  ++ (if negb (dctx s) && cancel_pending s then map TCheck (seq 0 (length (ws s))) else []).
+(* will[i] = the history contains an enter event of index i *)
+Fixpoint will_of (n : nat) (evs : list ev) : list bool :=
+  match evs with
+  | [] => repeat false n
+  | EEnter i _ :: t => upd (will_of n t) i true
+  | _ :: t => will_of n t
+  end.
 
 Definition accepts_history (c : config) (gated : list bool) (evs : list ev) : bool :=
-  accepts mstep vis ev_eqb st_eqb m_labels labels_ev 64 (init c gated) evs.
+  let will := will_of (c_n c) evs in
+  accepts (mstep will) vis ev_eqb st_eqb m_labels labels_ev 64 (init c gated) evs.
 
 Definition first_rejected (c : config) (gated : list bool) (evs : list ev) : option nat :=
-  first_reject mstep vis ev_eqb st_eqb m_labels labels_ev 64
-               (close mstep vis st_eqb m_labels 64 [init c gated]) evs O.
+  let will := will_of (c_n c) evs in
+  first_reject (mstep will) vis ev_eqb st_eqb m_labels labels_ev 64
+               (close (mstep will) vis st_eqb m_labels 64 [init c gated]) evs O.
 
 (* the same with the unreduced relation (exponential; used to cross-check the reduction on small cases) *)
 Definition accepts_history_full (c : config) (gated : list bool) (evs : list ev) : bool :=
